@@ -132,11 +132,37 @@ func evalCUE(src string) (res string) {
 	return "other " + v.Kind().String()
 }
 
+// histLits are parsed into a NumInfo before it is reused for the literal under test: the result of ParseNum
+// must be a function of the literal alone (the model is), whatever the NumInfo parsed before (multiplier,
+// base, separators, sign, float-ness, error state).
+var histLits = []string{"1K", "3Mi", ".5M", "0x1F", "0b101", "0o17", "1_000", "1.5e3", "2e-3", "1.5Gi", "07x", "1e"}
+
 func parseNumDirect(s string) string {
-	var info literal.NumInfo
-	if err := literal.ParseNum(s, &info); err != nil {
+	fresh := parseNumWith(s, nil)
+	for _, h := range histLits {
+		var info literal.NumInfo
+		_ = literal.ParseNum(h, &info)
+		if got := parseNumWith(s, &info); got != fresh {
+			return "HISTORY-DIFF fresh=[" + fresh + "] after " + h + "=[" + got + "]"
+		}
+	}
+	return fresh
+}
+
+func parseNumWith(s string, reuse *literal.NumInfo) string {
+	var info0 literal.NumInfo
+	info := &info0
+	if reuse != nil {
+		info = reuse
+	}
+	return parseNumInfo(s, info)
+}
+
+func parseNumInfo(s string, infop *literal.NumInfo) string {
+	if err := literal.ParseNum(s, infop); err != nil {
 		return "err"
 	}
+	info := *infop
 	k := "f"
 	if info.IsInt() {
 		k = "i"
@@ -171,6 +197,12 @@ func runCase(line string) (res string) {
 		s := common.Unhex(f[1])
 		d := parseNumDirect(s)
 		e := evalCUE(s)
+		// the same literal compiled after other literals in one source: [h, s][1] must be the value of s
+		for _, h := range []string{"1K", ".5M", "0x1F", "1.5e3", "1_000"} {
+			if e3 := evalCUE("[" + h + ", " + s + "][1]"); e3 != e {
+				return "CONTEXT-DIFF alone=[" + e + "] after " + h + "=[" + e3 + "]"
+			}
+		}
 		e2 := e
 		if strings.HasPrefix(e, "n ") {
 			e2 = "num " + e[2:]
